@@ -198,19 +198,29 @@ func c05Ownership(r *an.Run) {
 		}
 		for _, s := range an.CallsTo(f, rvSet, "(reflect.Value).SetInt", "(reflect.Value).SetString", "(reflect.Value).SetLen") {
 			dst := an.CallArgs(s)[0]
-			fresh := false
-			for v := range an.BackSlice(dst, an.SliceOpts{ThroughCalls: true}) {
-				if c, ok := v.(*ssa.Call); ok && an.IsCallTo(c, "reflect.New", "reflect.MakeSlice") {
-					fresh = true
+			// every value the destination may be rooted at (all phi edges, all
+			// stores into a local) is one this call allocated
+			fresh, foreign := false, ""
+			for _, o := range reflectOrigins(dst) {
+				switch x := o.(type) {
+				case *ssa.Call:
+					if an.IsCallTo(x, "reflect.New", "reflect.MakeSlice", "reflect.Zero") {
+						fresh = true
+						continue
+					}
+				case *ssa.Parameter:
+					if x.Name() == "dst" {
+						fresh = true // setValue helper: checked at its call sites
+						continue
+					}
 				}
-				if p, ok := v.(*ssa.Parameter); ok && p.Name() == "dst" {
-					fresh = true // setValue helper: checked at its call sites
-				}
+				foreign = an.Describe(o)
 			}
+			fresh = fresh && foreign == ""
 			if short(f) == "(internal/engine.FileReplacer).Replace" || short(f) == "(internal/engine.SearchReplacer).Replace" || short(f) == "internal/data.Lookup" {
 				continue
 			}
-			r.Check(fresh, short(f)+"|reflect-write", s.Pos(), "%s assigns by reflection only into a value it allocated in this call (reflect.New / MakeSlice), never into a node of the target file", short(f))
+			r.Check(fresh, short(f)+"|reflect-write", s.Pos(), "%s assigns by reflection only into a value it allocated in this call (reflect.New / MakeSlice), never into a node of the target file%s", short(f), ifNonEmpty(foreign, " — the destination may be "+foreign))
 		}
 	}
 }
